@@ -67,7 +67,7 @@ def translate():
     frc_r = factor_expr(need(r"b->F\(\)\.x\(\) = stod\(\*itok\) \* ([\w: */]+?);", dumpr, "dump force read factor").group(1))
     box_r = factor_expr(need(r"top\.setBox\(m \* ([\w:]+)\);", dumpr, "dump box read factor").group(1))
     xyzw = flat(REPO + "/csg/include/votca/csg/xyzwriter.h")
-    facts["xyzDec"] = int(need(r'boost::format fmter\("%1\$s%2\$10\.(\d)f%3\$10\.\1f%4\$10\.\1f\\n"\);', xyzw, "xyz position format").group(1))
+    facts["xyzDec"] = int(need(r'boost::format fmter\("%1\$s ?%2\$10\.(\d)f ?%3\$10\.\1f ?%4\$10\.\1f\\n"\);', xyzw, "xyz position format").group(1))
     xyz_w = factor_expr(need(r"Eigen::Vector3d getPos\(Bead ?& ?bead\) \{ return bead\.Pos\(\) \* ([\w:]+); \}", xyzw, "xyz write factor for beads").group(1))
     xyzr = flat(REPO + "/csg/include/votca/csg/xyzreader.h")
     xyz_r = factor_expr(need(r"Eigen::Vector3d posnm = pos \* ([\w:]+);", xyzr, "xyz read factor for topologies").group(1))
